@@ -1,5 +1,5 @@
 """C20 - diagnostic plotting is free of side effects (totality of matplotlib is not claimed)."""
-from sa.rules import plots, exceptions
+from sa.rules import plots, exceptions, scaling
 
 LEVEL = 'other'
 
@@ -16,6 +16,9 @@ def check(ctx):
     plots.one_figure_per_plot(ctx, 'C20-R9')
     plots.optional_arguments_guarded(ctx, 'C20-R10')
     plots.labels_are_not_positions(ctx, 'C20-R11')
+    # R12: the secondary axes are drawn with the scaling parameters derived from the chunk data, non-detections included:
+    # the derivation is NaN-safe (= C19-R1), else the axis limits are NaN and matplotlib refuses to draw
+    scaling.nan_safe(ctx, 'C20-R12')
     ctx.undecided += ['totality of the matplotlib calls themselves; exact file contents',
                       'that an exception inside the plotting code still closes the figure']
     ctx.assumptions += ['plt.style.context / rc_context restore rcParams on exit, including on exceptions']
